@@ -75,4 +75,6 @@ Example C02_lookup_premises_satisfiable :
     new_loader ex_L ex_dec ex_pgp ex_w [77;97;110;105;102;101;115;116] (mk_opts None false None [] PDefault None None false) false true = Ok l0 /\
     run_rops ex_L ex_dec ex_pgp ex_w l0 [RVerifyDir [] PolThrow None] = Ok l /\
     find_path_entry_l ex_L ex_dec ex_pgp ex_w l [115;47;97] = Ok (l', Some e) /\ e = EFile TDATA [97] [] 1 [].
-Proof. vm_compute. do 4 eexists. repeat split; reflexivity. Qed.
+Proof.
+  do 4 eexists. split; [vm_compute; reflexivity|]. split; [vm_compute; reflexivity|]. split; [vm_compute; reflexivity|reflexivity].
+Qed.
